@@ -47,6 +47,8 @@ class CtrlBase(Controller):
 
 # ---------------------------------------------------------------------------- model of call binding
 def param_lists(sig, leaf):
+    if sig.get("implicit_target") and not leaf:
+        return [], [], []
     po = [n for n, _d in sig["po"]]
     pk = [n for n, _d in sig["pk"]]
     if not leaf:
@@ -88,6 +90,15 @@ def class_source(name, base, sig, leaf):
     def fmt(items):
         return [n + ("=%r" % ("dflt_" + n) if d else "") for n, d in items]
 
+    if sig.get("implicit_target") and not leaf:
+        # the constructor takes its target through *args (a thin wrapper): def __init__(self, *args, **kwargs)
+        return "\n".join([
+            f"class {name}({base}):",
+            "    def __init__(self, *args, **kwargs):",
+            "        LOG.append((type(self).__name__, args[0], {'*': tuple(args[1:]), '**': dict(kwargs)}, self))",
+            "        super().__init__(args[0])",
+            "    def run(self):\n        pass",
+        ]) + "\n"
     params = ["self"]
     if not leaf:
         params.append("target")
@@ -145,6 +156,8 @@ def signature(draw, leaf):
         pk_names = ["target"] + pk_names  # a pool may legitimately own a parameter called target
     pk, _ = plist(pk_names, nd)
     ko = [[n, draw(st.booleans())] for n in ["k1", "k2"][: draw(st.integers(0, 2))]]
+    if not leaf and draw(st.integers(0, 7)) == 0:
+        return {"po": [], "pk": [], "va": True, "ko": [], "vk": True, "implicit_target": True}
     return {"po": po, "pk": pk, "va": draw(st.booleans()) and draw(st.booleans()), "ko": ko,
             "vk": draw(st.booleans()) and draw(st.booleans())}
 
